@@ -29,8 +29,14 @@ var sourceFields = map[string]bool{
 	"ActionMetadataRuns.Entrypoint": true, "ActionMetadataRuns.PostEntrypoint": true,
 	"ActionMetadataBranding.Icon": true, "ActionMetadataBranding.Color": true,
 	"ReusableWorkflowMetadataInput.Name": true, "ReusableWorkflowMetadataSecret.Name": true, "ReusableWorkflowMetadataOutput.Name": true,
-	"shellcheckError.Message": false, // single-line tool output (assumption recorded in the evidence)
+	// text printed by the external tools: shellcheck echoes characters of the script in its messages (SC1001 and others);
+	// an earlier version of this table assumed single-line tool output, which hunt round 3 refuted (F100)
+	"shellcheckError.Message": true, "shellcheckError.Level": true,
 }
+
+// valueSourceCalls: externals whose first result is text produced outside the process (the output of shellcheck / pyflakes,
+// which echoes parts of the script).
+var valueSourceCalls = map[string]bool{"(*os/exec.Cmd).Output": true, "(*os/exec.Cmd).CombinedOutput": true}
 
 // messageFields hold finished diagnostic messages: every store into them is an obligation of C16.TAINT.
 var messageFields = map[string]bool{"Error.Message": true, "ExprError.Message": true, "InvalidGlobPattern.Message": true}
@@ -413,6 +419,9 @@ func (t *taintEng) callResult(call *ssa.Call, idx int, depth int) string {
 	if sanitiserCalls[name] || sanitiserFuncs[name] {
 		return ""
 	}
+	if valueSourceCalls[name] && idx == 0 {
+		return "output of an external tool (" + name + ") at " + p.Pos(call.Pos())
+	}
 	switch name {
 	case "fmt.Sprintf", "fmt.Errorf":
 		if fs, ok := constString(cc.Args[0]); ok {
@@ -538,9 +547,22 @@ func (t *taintEng) callResult(call *ssa.Call, idx int, depth int) string {
 	}
 	// a string function outside the module that is not in the tables above: its result may carry its string arguments
 	if f != nil && !inModule(f) && (strings.HasPrefix(name, "strings.") || strings.HasPrefix(name, "(*strings.") || strings.HasPrefix(name, "bytes.") || strings.HasPrefix(name, "unicode/utf8.")) {
-		if b, ok := call.Type().Underlying().(*types.Basic); ok && b.Info()&types.IsString != 0 {
+		textual := func(tp types.Type) bool {
+			switch u := tp.Underlying().(type) {
+			case *types.Basic:
+				return u.Info()&types.IsString != 0
+			case *types.Slice:
+				return typeStr(u.Elem()) == "byte"
+			}
+			return false
+		}
+		res := call.Type()
+		if tu, ok := res.(*types.Tuple); ok && idx < tu.Len() {
+			res = tu.At(idx).Type()
+		}
+		if textual(res) {
 			for _, a := range cc.Args {
-				if ab, ok := a.Type().Underlying().(*types.Basic); ok && ab.Info()&types.IsString != 0 {
+				if textual(a.Type()) {
 					if r := t.find(a, depth+1); r != "" {
 						return r
 					}
